@@ -281,6 +281,12 @@ pub fn guarded<T>(f: impl FnOnce() -> T) -> Result<T, Fail> {
     }
 }
 
+static MAX_SHRINK: std::sync::atomic::AtomicU32 = std::sync::atomic::AtomicU32::new(4000);
+/// expensive cases (real directories with hundreds of files) cap the shrinking effort
+pub fn set_max_shrink_iters(n: u32) {
+    MAX_SHRINK.store(n, std::sync::atomic::Ordering::Relaxed);
+}
+
 /// Generic proptest driver. `run` must be a pure function of the case.
 pub fn drive<C>(
     w: &WorkerCtx,
@@ -304,7 +310,7 @@ where
         cases: cases as u32,
         rng_seed: RngSeed::Fixed(seed),
         failure_persistence: None,
-        max_shrink_iters: 4000,
+        max_shrink_iters: MAX_SHRINK.load(std::sync::atomic::Ordering::Relaxed),
         max_shrink_time: 0,
         max_global_rejects: 1 << 20,
         max_local_rejects: 1 << 20,
